@@ -818,6 +818,14 @@ def run(ctx):
     for sd, bad in big_bad[:1]:
         ctx.violation(dict(kind="big-document-order", property="C20", requests=12, seed=sd, **bad))
     ctx.cov["big_document_order_sessions"] = 6 if thorough else 2
+    # many documents in one session (counts past every round number a server might cap its store at)
+    many = [70, 130, 300] + ([520, 1100] if thorough else [])
+    for n in many:
+        bad = many_documents(exe, n, ctx.seed + n)
+        if bad and many_documents(exe, n, ctx.seed + n):
+            ctx.violation(dict(kind="many-documents", property="C20", opens=n, seed=ctx.seed + n, **bad))
+            break
+    ctx.cov["many_documents_sessions"] = many
 
     ref = Reference(exe)
     results = []
@@ -1001,8 +1009,62 @@ def big_document_order(exe, nreq, seed):
     return None
 
 
+def many_documents(exe, nopen, seed):
+    """one long-lived document that is never closed, and `nopen` other documents opened, changed and (most of them) closed
+    again, pipelined; at the end the long-lived document must still be known with its own text, must follow one more change,
+    and every document still open must hold its own text.  Returns None or a description."""
+    import random
+    rng = random.Random(seed)
+    s = lspclient.Server(exe)
+    try:
+        s.initialize(diagnostics=False)
+        keep = "file:///keep/main.spl"
+        texts = {keep: "proc main() {\n  x := 1;\n}\n"}
+        s.open(keep, texts[keep])
+        for k in range(nopen):
+            u = "file:///many/d%d.spl" % (k % max(3, nopen // 3))      # URIs are reused: open, close, open again
+            if u in texts:
+                s.close(u)
+                del texts[u]
+            texts[u] = "// %d\nproc p%d() { }\n" % (k, k)
+            s.open(u, texts[u])
+            if rng.random() < 0.5:
+                s.change(u, [{"text": texts[u] + "// v2\n"}], version=2)
+                texts[u] += "// v2\n"
+            if rng.random() < 0.6:
+                s.close(u)
+                del texts[u]
+        s.change(keep, [{"range": {"start": {"line": 1, "character": 7}, "end": {"line": 1, "character": 8}}, "text": "42"}], version=2)
+        texts[keep] = "proc main() {\n  x := 42;\n}\n"
+        for u in sorted(texts):
+            try:
+                r = s.request("$/verif/text", {"uri": u}, timeout=60.0)
+            except Exception:  # noqa
+                r = None
+            got = r.get("result") if isinstance(r, dict) else "<no answer>"
+            if got != texts[u]:
+                return dict(documents_opened=nopen + 1, uri=u, client_text=texts[u], server_text=got,
+                            what="after %d didOpen notifications in one session (most documents closed again) the server's text of a "
+                                 "document that is still open differs from the client's (null = the server does not know it)" % (nopen + 1))
+        try:
+            r = s.request("textDocument/foldingRange", {"textDocument": {"uri": keep}}, timeout=30.0)
+        except Exception:  # noqa
+            r = None
+        if not isinstance(r, dict) or not isinstance(r.get("result"), list) or len(r["result"]) != 1:
+            return dict(documents_opened=nopen + 1, uri=keep, answer=r,
+                        what="the long-lived document is no longer answered for after many other documents were opened and closed")
+    finally:
+        s.kill()
+    return None
+
+
 def replay(ctx, path):
     r = json.load(open(path))
+    if r.get("kind") == "many-documents":
+        exe, _ = common.build_server()
+        bad = many_documents(exe, r["opens"], r["seed"])
+        print(bad or "every open document keeps its text")
+        return 1 if bad else 0
     if r.get("kind") == "big-document-order":
         exe, _ = common.build_server()
         bad = big_document_order(exe, r["requests"], r["seed"])
